@@ -234,6 +234,10 @@ FUNCS = [
     ('g_setPhosPhoSites', 'localcider/backend/sequence.py', 'Sequence', 'setPhosPhoSites', ['data.aminoacids.', 'aminoacids.']),
     ('g_isoelectric_point', 'localcider/backend/sequence.py', 'Sequence', 'isoelectric_point', []),
     ('g_final_validation', 'localcider/backend/seqfileparser.py', 'SequenceFileParser', '__final_validation', []),
+    ('g_get_phosphosites', 'localcider/backend/sequence.py', 'Sequence', 'get_phosphosites', []),
+    ('g_get_STY_residues', 'localcider/backend/sequence.py', 'Sequence', 'get_STY_residues', []),
+    ('g_get_phosphosequence', 'localcider/backend/sequence.py', 'Sequence', 'get_phosphosequence', []),
+    ('g_clear_phosphosites', 'localcider/backend/sequence.py', 'Sequence', 'clear_phosphosites', []),
     ('g_parseSeqFile', 'localcider/backend/seqfileparser.py', 'SequenceFileParser', 'parseSeqFile', []),
 ]
 
